@@ -10,8 +10,9 @@ for f in $FILES; do case $f in
   description/src/formatting.rs) PROPS="$PROPS C15 C13";;
   description/src/description.rs) PROPS="$PROPS C13";;
   description/src/type_example/scale_value.rs) PROPS="$PROPS C12";;
-  typegen/src/typegen/settings/derives.rs) PROPS="$PROPS C08 C18 C16";;
-  typegen/src/typegen/settings/substitutes.rs) PROPS="$PROPS C16";;
+  typegen/src/typegen/settings/derives.rs) PROPS="$PROPS C08 C18 C16 C11";;
+  typegen/src/typegen/settings/substitutes.rs) PROPS="$PROPS C16 C11";;
+  typegen/src/typegen/error.rs) PROPS="$PROPS C10 C11";;
   typegen/src/utils.rs) PROPS="$PROPS C10";;
   typegen/src/typegen/mod.rs) PROPS="$PROPS C10 C08 C18";;
   typegen/src/typegen/ir/type_ir.rs|typegen/src/typegen/type_path.rs) PROPS="$PROPS C08 C18";;
